@@ -911,6 +911,22 @@ theorem generalTable_ids (fs fo : MdF) (ms mo : Mode) (a b : Table α) (ax : Axi
     (generalTable fs fo ms mo a b).ids ax = newOrder (mOf ms mo ax) (a.ids ax) (b.ids ax) := by
   cases ax <;> rfl
 
+/-- what a step of the specification says about one ID (the entries are computed once per step) -/
+theorem AxV.step_md (f : MdFun) (m : Mode) (ax : Axis) (v : AxV) (t : Table α) (id : Id) :
+    (AxV.step f m ax v t).md id =
+      if (newOrder m v.ids (t.ids ax)).all (fun i => (canon (f (v.md i) (t.mdOf? ax i))).isEmpty) then none
+      else if id ∈ newOrder m v.ids (t.ids ax) then some (canon (f (v.md id) (t.mdOf? ax id))) else none := by
+  simp only [AxV.step, List.all_map, lookupBy_map]
+  have hc : ((fun e => (canon e).isEmpty) ∘ fun i => f (v.md i) (t.mdOf? ax i)) =
+      fun i => (canon (f (v.md i) (t.mdOf? ax i))).isEmpty := rfl
+  rw [hc]
+  split
+  · rfl
+  · split <;> rfl
+
+theorem AxV.step_ids (f : MdFun) (m : Mode) (ax : Axis) (v : AxV) (t : Table α) :
+    (AxV.step f m ax v t).ids = newOrder m v.ids (t.ids ax) := rfl
+
 theorem mdRel_general (fs fo : MdF) (ms mo : Mode) (ax : Axis) (acc t : Table α) (v : AxV)
     (h : MdRel ax acc v) :
     MdRel ax (generalTable fs fo ms mo acc t)
@@ -923,7 +939,7 @@ theorem mdRel_general (fs fo : MdF) (ms mo : Mode) (ax : Axis) (acc t : Table α
   refine ⟨hids, ?_⟩
   intro id
   rw [general_md]
-  simp only [AxV.step, h.2]
+  simp only [AxV.step_md, h.2]
   rw [all_congr_mem _ hids]
   by_cases hall : (newOrder (mOf ms mo ax) v.ids (t.ids ax)).all
       (fun i => (canon (applyF (fOf fs fo ax) (v.md i) (t.mdOf? ax i))).isEmpty) = true
@@ -967,7 +983,7 @@ theorem mdRel_fast (fs fo : MdF) (ax : Axis) (acc t : Table α) (v : AxV) (h : M
   refine ⟨hids, ?_⟩
   intro id
   rw [fastMerge_mdOf]
-  simp only [AxV.step]
+  simp only [AxV.step_md]
   have hall : (newOrder .union v.ids (t.ids ax)).all
       (fun i => (canon (applyF (fOf fs fo ax) (v.md i) (t.mdOf? ax i))).isEmpty) = true := by
     rw [List.all_eq_true]
@@ -1021,7 +1037,7 @@ theorem specFold_none (f : MdFun) (m : Mode) (ax : Axis) :
     rw [List.foldl_cons]
     apply ih
     · intro id'
-      simp only [AxV.step]
+      simp only [AxV.step_md]
       rw [if_pos]
       rw [List.all_eq_true]
       intro i _
